@@ -432,28 +432,12 @@ Proof.
   - vm_compute. discriminate.
 Qed.
 
-Lemma keysvalues_lazy_refuted :
-  exists fs, wf_fields fs /\ keys_values_spec false fs <> keys_values_impl false fs.
-Proof.
-  exists [(nm "a", (false, VBomb 7))]. split.
-  - repeat constructor. simpl; tauto.
-  - vm_compute. discriminate.
-Qed.
-
 Lemma removekey_self_refuted :
   exists fs k sd, wf_fields fs /\ remove_key_spec fs k sd <> remove_key_impl fs k sd.
 Proof.
   exists [(nm "a", (false, VNum 1)); (nm "b", (false, VNum 1))], (nm "a"), [nm "b"]. split.
   - repeat constructor; simpl; intuition; discriminate.
   - vm_compute. discriminate.
-Qed.
-
-Lemma mergepatch_hidden_refuted :
-  exists t p, bomb_free t = true /\ bomb_free p = true /\
-              mp_impl (fuel_for p) t p <> mp_def (fuel_for p) t p.
-Proof.
-  exists (VObj [(nm "a", (false, VNum 1)); (nm "b", (false, VNum 2))]), (VObj [(nm "a", (true, VNull))]).
-  repeat split; try reflexivity. vm_compute. discriminate.
 Qed.
 
 Lemma mergepatch_eager_refuted :
@@ -569,12 +553,12 @@ Section MpLoop.
     match keys with
     | [] => Ok []
     | k :: ks =>
-        match lookup k pf with
+        match vlookup k pf with
         | None => bind (mp_loop ks) (fun r => Ok ((k, (false, value_of k tf)) :: r))
-        | Some (_, VBomb _) => Err ERun
-        | Some (_, VNull) => mp_loop ks
-        | Some (_, pv) =>
-            bind (match lookup k tf with Some (_, tv) => force tv | None => Ok VNull end)
+        | Some (VBomb _) => Err ERun
+        | Some VNull => mp_loop ks
+        | Some pv =>
+            bind (match vlookup k tf with Some tv => force tv | None => Ok VNull end)
                  (fun tv => bind (F tv pv)
                                  (fun v => bind (mp_loop ks) (fun r => Ok ((k, (false, v)) :: r))))
         end
@@ -604,19 +588,23 @@ Fixpoint mp_out (G : val -> val -> val) (tf pf : fields) (keys : list str) : fie
                end
   end.
 
+Definition all_visible (fs : fields) : Prop :=
+  forall k, vlookup k fs = match lookup k fs with Some (_, v) => Some v | None => None end.
+
 Lemma mp_loop_out F G tf pf keys :
+  all_visible tf -> all_visible pf ->
   (forall k h v, lookup k tf = Some (h, v) -> is_bomb v = false) ->
   (forall k h pv, In k keys -> lookup k pf = Some (h, pv) ->
                   is_bomb pv = false /\ F (value_of k tf) pv = Ok (G (value_of k tf) pv)) ->
   mp_loop F tf pf keys = Ok (mp_out G tf pf keys).
 Proof.
-  intros Ht. induction keys as [|k ks IH]; intros Hp; simpl; auto.
+  intros Vt Vp Ht. induction keys as [|k ks IH]; intros Hp; simpl; auto.
   assert (IH' : mp_loop F tf pf ks = Ok (mp_out G tf pf ks)).
   { apply IH. intros k' h pv Hin. apply Hp. right; auto. }
-  assert (Htv : (match lookup k tf with Some (_, tv) => force tv | None => Ok VNull end) = Ok (value_of k tf)).
-  { unfold value_of. destruct (lookup k tf) as [[h v]|] eqn:L; auto.
+  assert (Htv : (match vlookup k tf with Some tv => force tv | None => Ok VNull end) = Ok (value_of k tf)).
+  { rewrite Vt. unfold value_of. destruct (lookup k tf) as [[h v]|] eqn:L; auto.
     specialize (Ht _ _ _ L). destruct v; simpl in *; auto; discriminate. }
-  unfold mp_field. destruct (lookup k pf) as [[h pv]|] eqn:L.
+  unfold mp_field. rewrite Vp. destruct (lookup k pf) as [[h pv]|] eqn:L.
   - destruct (Hp k h pv (or_introl eq_refl) L) as [Hb HF].
     destruct pv; simpl in Hb; try discriminate; auto;
       rewrite Htv; simpl; rewrite HF; simpl; rewrite IH'; reflexivity.
@@ -899,6 +887,12 @@ Proof.
   - split; [discriminate|congruence].
 Qed.
 
+Lemma jf_all_visible fs : jf fs -> all_visible fs.
+Proof.
+  intros [_ Hj] k. unfold vlookup. destruct (lookup k fs) as [[h v]|] eqn:L; auto.
+  apply lookup_in in L. eapply json_fields_in in L; eauto. destruct L as [-> _]. reflexivity.
+Qed.
+
 Fixpoint depth_fields (fs : fields) : nat :=
   match fs with [] => O | (_, (_, x)) :: r => Nat.max (depth x) (depth_fields r) end.
 Lemma depth_obj fs : depth (VObj fs) = S (depth_fields fs).
@@ -929,7 +923,7 @@ Proof.
   assert (Hmem : forall k, In k keys <-> lookup k tf <> None \/ lookup k pf <> None).
   { intros k. unfold keys. rewrite in_union_sorted.
     rewrite <- !has_iff_listed by (apply jf_wf; auto). rewrite !jf_has by auto. tauto. }
-  rewrite (mp_loop_out (mp_impl n) rfc7396).
+  rewrite (mp_loop_out (mp_impl n) rfc7396); try (apply jf_all_visible; auto).
   - simpl. f_equal. f_equal. apply sorted_fields_ext.
     + apply mp_out_sorted; auto.
     + apply rfc_go_sorted. apply Jtf.
@@ -957,7 +951,7 @@ Qed.
 
 (** ** laziness: a visible target field that the patch does not mention is handed over unevaluated *)
 Lemma mp_loop_untouched F tf pf keys : forall out k,
-  mp_loop F tf pf keys = Ok out -> In k keys -> lookup k pf = None -> NoDup keys ->
+  mp_loop F tf pf keys = Ok out -> In k keys -> vlookup k pf = None -> NoDup keys ->
   lookup k out = Some (false, value_of k tf).
 Proof.
   induction keys as [|k1 ks IH]; intros out k Hl Hin Hp Hnd; [destruct Hin|].
@@ -970,9 +964,9 @@ Proof.
     { destruct Hin as [->|]; auto. rewrite str_eqb_refl in E. discriminate. }
     assert (Step : forall r, mp_loop F tf pf ks = Ok r -> lookup k r = Some (false, value_of k tf)).
     { intros r Hr. eapply IH; eauto. }
-    destruct (lookup k1 pf) as [[h pv]|].
+    destruct (vlookup k1 pf) as [pv|].
     + destruct pv; try discriminate; auto;
-        (destruct (match lookup k1 tf with Some (_, tv) => force tv | None => Ok VNull end) as [tv| |];
+        (destruct (match vlookup k1 tf with Some tv => force tv | None => Ok VNull end) as [tv| |];
          simpl in Hl; try discriminate;
          match type of Hl with bind ?X _ = _ => destruct X as [v| |]; simpl in Hl; try discriminate end;
          destruct (mp_loop F tf pf ks) as [r| |]; simpl in Hl; try discriminate;
@@ -981,10 +975,11 @@ Proof.
       inversion Hl; subst; simpl; rewrite E; auto.
 Qed.
 
+(** a visible target field that the patch does not mention VISIBLY (absent or hidden there) *)
 Lemma mergepatch_lazy n t pf out k :
   wf_fields (obj_fields t) -> wf_fields pf ->
   mp_impl (S n) t (VObj pf) = Ok (VObj out) ->
-  has_ex (obj_fields t) k false = true -> lookup k pf = None ->
+  has_ex (obj_fields t) k false = true -> vlookup k pf = None ->
   lookup k out = Some (false, value_of k (obj_fields t)).
 Proof.
   intros Wt Wp Hm Hh Hp.
